@@ -204,7 +204,21 @@ func apkExtra(r *rand.Rand) string {
 }
 
 func apkName(r *rand.Rand) string { return word(r, lower, 1, 1) + word(r, lower+digits+"+._-", 0, 12) }
+// edgeVer: every fifth version string is an edge of what the format allows — ONE character (a digit; a letter where versions need not be
+// numeric), two characters, or a long one — instead of the usual shape (a reader that measures the version, or cuts a prefix off it, is
+// wrong first on these).
+func edgeVer(r *rand.Rand, edges []string, usual string) string {
+	if r.Intn(5) == 0 {
+		return pick(r, edges)
+	}
+	return usual
+}
+
 func apkVer(r *rand.Rand) string {
+	return edgeVer(r, []string{"1", "9", "0", "10", "1a", "1.2.3.4.5.6.7.8.9.10.11.12_p20230101_git20240202-r100"}, apkVerUsual(r))
+}
+
+func apkVerUsual(r *rand.Rand) string {
 	return word(r, digits, 1, 2) + "." + word(r, digits, 1, 2) + pick(r, []string{"", ".3", "_rc1", "_git20230101", "a"}) + "-r" + word(r, digits, 1, 2)
 }
 
@@ -382,6 +396,7 @@ func genGradleRec(r *rand.Rand) gradleRec {
 	if r.Intn(12) == 0 {
 		g.group = pick(r, []string{"empty", "emptyx", "e", "empt", "edu.x", "Empty"})
 	}
+	g.ver = edgeVer(r, []string{"1", "9", "0", "a", "Z", "10", "1a", "10.20.30.40.50-SNAPSHOT+build_20240101.abcdef0123456789.RELEASE"}, g.ver)
 	if r.Intn(20) == 0 {
 		g.ver += ":" + word(r, digits, 1, 3) // a ':' inside the version part
 	}
@@ -522,6 +537,10 @@ type gemSec struct {
 
 func gemName(r *rand.Rand) string { return word(r, lower, 1, 1) + word(r, lower+digits+"_-.", 0, 14) }
 func gemVer(r *rand.Rand) string {
+	return edgeVer(r, []string{"1", "9", "0", "a", "10", "1a", "10.20.30.40.50.60.70.80.90.100.pre.rc.1.beta.2"}, gemVerUsual(r))
+}
+
+func gemVerUsual(r *rand.Rand) string {
 	return word(r, digits, 1, 2) + "." + word(r, digits, 1, 2) + pick(r, []string{"", ".0", ".3.pre", ".rc1", ".beta.2"})
 }
 
